@@ -168,6 +168,17 @@ func (c *Config) UnpackWithoutOptions(to interface{}) error {
 func reifyInto(opts *options, to reflect.Value, from *Config) Error {
 	to = chaseValuePointers(to)
 
+	// A nil pointer to a Config must be initialized with a usable Config. The
+	// zero value of Config, as created when handling it like any other struct,
+	// is not.
+	if to.Kind() == reflect.Ptr && to.IsNil() && to.CanSet() {
+		if baseType := chaseTypePointers(to.Type()); baseType.Kind() == reflect.Struct && tConfig.ConvertibleTo(baseType) {
+			cfg := reflect.ValueOf(New()).Convert(reflect.PtrTo(baseType))
+			to.Set(pointerize(to.Type(), baseType, cfg))
+			to = chaseValuePointers(to)
+		}
+	}
+
 	if to, ok := tryTConfig(to); ok {
 		return mergeConfig(opts, to.Addr().Interface().(*Config), from)
 	}
